@@ -1046,8 +1046,12 @@ class Evaluator:
                 if fr.fn.cls in mro:
                     for k in mro[mro.index(fr.fn.cls) + 1:]:
                         if name in k.methods:
-                            return self.call_function(k.methods[name][0], fr.env.get(fr.fn.self_name), fr.self_cls,
-                                                      args, kwargs, fr)
+                            r = self.call_function(k.methods[name][0], fr.env.get(fr.fn.self_name), fr.self_cls,
+                                                   args, kwargs, fr)
+                            if r[0] == "call" and isinstance(r[1], tuple) and r[1][0] == "attr" and r[1][2] == name:
+                                # not inlined: keep the statically bound callee (a plain self.<name>() would dispatch back)
+                                return ("call", ("fn", f"{k.name}.{name}"), (r[1][1],) + tuple(r[2]), r[3])
+                            return r
             bc = self.type_of(base)
             if bc is not None:
                 fs = bc.resolve_all(name)
